@@ -416,10 +416,59 @@ def mhist_check(case, ctx):
     return res
 
 
+# ---- statement scopes (C11 6.8.4p3, 6.8.5p5): every selection/iteration statement and each of its substatements is a block ----
+
+# an expression that declares an enumeration constant or a tag called like an outer one, usable as an unbraced body
+STMT_DECLS = [
+    "(void)sizeof(enum { %(n)s = %(v)d })", "(void)(enum { %(n)s = %(v)d })0", "(void)_Alignof(enum { %(n)s = %(v)d })",
+    "(void)sizeof(struct %(t)s { char c[%(v)d]; })", "(void)(struct %(t)s { char c[%(v)d]; } *)0", "(void)&(struct %(t)s { char c[%(v)d]; }){ { 0 } }",
+    "(void)sizeof(union %(t)s { char c[%(v)d]; })",
+]
+# statement shapes: {D} = the declaring expression, {U} = a use that must see the outer declaration; k counts iterations
+STMT_SHAPES = [
+    "do {D}; while (++k < {U});",
+    "do k++, {D}; while (k < {U});",
+    "while (k < {U}) k++, {D};",
+    "for (; k < {U}; k++) {D};",
+    "for ({D}; k < {U}; ) k++;",
+    "if (k < {U}) {D}; else k += {U};",
+    "if (k > {U}) k = 0; else {D}; k += {U};",
+    "switch (k) default: {D}; k += {U};",
+    "if (({D}), 1) k += 1; k += {U};",
+    "while (({D}), k < 2) k++; k += {U};",
+    "for (;; ({D})) { if (k++ >= {U}) break; }",
+    "do if (k) {D}; while (++k < {U});",
+]
+
+
+def stmt_enum(ctx):
+    for si in range(len(STMT_SHAPES)):
+        for di in range(len(STMT_DECLS)):
+            yield {"shape": si, "decl": di, "t": (si + di) % 3}
+
+
+def stmt_check(case, ctx):
+    """The name declared inside a substatement must not be visible in the controlling expression or after the statement."""
+    res = Result()
+    decl = STMT_DECLS[case["decl"]] % {"n": "LIM", "t": "pt", "v": 100}
+    use = "LIM" if "enum" in decl else "(int)sizeof(struct pt)" if "struct" in decl else "(int)sizeof(union pt)"
+    shape = STMT_SHAPES[case["shape"]].replace("{D}", decl).replace("{U}", use)
+    outer = "enum { LIM = 3 };" if "enum" in decl else "struct pt { char c[3]; };" if "struct" in decl else "union pt { char c[3]; };"
+    src = PROLOGUE + "%s\nint main(void) {\n\tint k = 0;\n\t%s\n\tchk_i64(k);\n\tchk_i64(%s);\n\treturn 0;\n}\n" % (outer, shape, use)
+    c = {"src": src, "expect": None, "t": case["t"], "profile": "stmt-scope", "std": "gnu11", "always_ref": True}
+    c01.judge(ctx, c, res)
+    if res.fail is None and not res.discard:
+        res.keys = [sha(src)]
+    res.labels.append("stmt-scope:%d" % case["shape"])
+    res.sample = {"statement": shape}
+    return res
+
+
 def sources(ctx):
     return [maptree.replay_source()] + wrap_rc(maptree.map_sources(ctx)) + [
         Source("misc", misc_check, strategy=lambda c: misc_cases(), examples={"quick": 60, "thorough": 2000}),
         Source("macro-history", mhist_check, strategy=lambda c: st.composite(lambda draw: mhist_cases(draw))(), examples={"quick": 1500, "thorough": 60000}),
+        Source("stmt-scopes", stmt_check, enum=stmt_enum, exhaustive=True),
         Source("scopes", scope_check, strategy=lambda c: scope_cases(), examples={"quick": 200, "thorough": 5000}),
         Source("scopes-big", scope_check, strategy=lambda c: scope_cases(big=True), examples={"quick": 3, "thorough": 30}),
     ]
